@@ -107,6 +107,8 @@ pub struct State {
     /// fail every call of the given classes whose file name ends with the suffix (sticky fault by
     /// file kind; independent of call numbering, so it is stable under schedule exploration)
     pub fail_by_suffix: Option<(u32, String)>,
+    /// if set, `fail_by_suffix` only hits calls made by this task of the controlled runtime
+    pub fail_only_task: Option<usize>,
     /// if set: at every removal, the value of this clock, the path and the image right after it
     pub removal_clock: Option<&'static std::sync::atomic::AtomicU64>,
     pub removal_snaps: Vec<(u64, String, Image)>,
@@ -141,7 +143,11 @@ impl State {
     /// Returns Err if this call is to fail.
     fn gate(&mut self, cls: u32, what: &Path) -> io::Result<()> {
         if let Some((mask, suffix)) = self.fail_by_suffix.as_ref() {
-            if mask & cls != 0 && what.to_string_lossy().ends_with(suffix.as_str()) {
+            let task_ok = match self.fail_only_task {
+                Some(t) => shuttle::current::get_current_task().map(usize::from) == Some(t),
+                None => true,
+            };
+            if task_ok && mask & cls != 0 && what.to_string_lossy().ends_with(suffix.as_str()) {
                 self.faults_fired += 1;
                 return Err(injected());
             }
